@@ -198,7 +198,7 @@ def option_keys(cls):
 
 OPTION_VALUES = {
     "verbose": [True], "allow_string": [True], "force": [True], "reprod": [True, False],
-    "collapse": [2, 5, "x"], "sequential": [True], "chunksize": [4, 0, "x"], "tilesize": [4, -1, "x"],
+    "collapse": [2, 5, "x"], "sequential": [True], "chunksize": [4, 2, 3, 5, 8, 16, 64, 0, "x"], "tilesize": [4, 2, 3, 5, 8, 16, 64, -1, "x"],
     "nogroup": [True], "nowait": [True], "independent": [False], "gang": [True], "vector": [True],
     "default_present": [True, 3], "disable_loop_check": [True], "allow_accroutine": [True],
     "prefix": ["extract", "bad prefix!"], "region_name": [("m", "r"), "notatuple"],
